@@ -121,7 +121,31 @@ ReconLied ==
   /\ pc' = <<"done", 0>>
   /\ UNCHANGED sc
 
-Next == KeyGen \/ MakeKp \/ Choose \/ DoCommit \/ DoPackage \/ SignHonest \/ ReconHonest \/ Lie
+\* The threshold a signer enforces is the one recorded in its key package, however it
+\* was obtained.  A holder whose share is repaired with the help of a pre-3.0 public key
+\* package (no recorded threshold) must not end up with a package that enforces nothing:
+\* repair_share_part3 refuses such a package.
+HSeq == SubSeq(sc.ids, 1, sc.t)              \* helpers: the first t participants
+X    == sc.ids[sc.n]                         \* the repaired participant (needs n > t)
+DN == [i \in 1..16 |-> "dfrom" \o ToString(i)]
+RepairLegacy ==
+  /\ pc[1] = "choose" /\ sc.n > sc.t
+  /\ ActLieMin(<<"pkpLegacy", 0>>, PKP, -1)
+  /\ pc' = <<"rl1", 1>> /\ UNCHANGED sc
+Rl1 ==
+  /\ pc[1] = "rl1"
+  /\ LET i == HSeq[pc[2]] IN ActRepair1(DN[i], HSeq, <<"kp", i>>, [k \in 1..(sc.t - 1) |-> 1], X)
+  /\ Go(IF pc[2] = sc.t THEN <<"rl2", 1>> ELSE <<"rl1", pc[2] + 1>>) /\ UNCHANGED sc
+Rl2 ==
+  /\ pc[1] = "rl2"
+  /\ LET j == HSeq[pc[2]] IN ActRepair2(<<"sigma", j>>, [k \in 1..sc.t |-> <<DN[HSeq[k]], j>>])
+  /\ Go(IF pc[2] = sc.t THEN <<"rl3", 0>> ELSE <<"rl2", pc[2] + 1>>) /\ UNCHANGED sc
+Rl3 ==
+  /\ pc[1] = "rl3"
+  /\ ActRepair3(<<"kpR", X>>, [k \in 1..sc.t |-> <<"sigma", HSeq[k]>>], X, <<"pkpLegacy", 0>>)
+  /\ pc' = <<"done", 0>> /\ UNCHANGED sc
+
+Next == KeyGen \/ MakeKp \/ Choose \/ RepairLegacy \/ Rl1 \/ Rl2 \/ Rl3 \/ DoCommit \/ DoPackage \/ SignHonest \/ ReconHonest \/ Lie
         \/ SignLied \/ AggHonest \/ LiePkpStep \/ AggLied \/ DoVerify \/ ReconLied
 Spec == Init /\ [][Next]_vars
 
@@ -141,6 +165,9 @@ InvRefuse ==
   /\ (last.op = "aggregate" /\ pc[1] = "liepkp") => ~last.res.ok
   /\ (last.op = "reconstruct" /\ pc[1] = "lie") => ~last.res.ok
 
+\* a repair through a public package without threshold yields no key package
+InvNoThresholdlessRepair == (last.op = "repair3" /\ pc[1] = "done") => ~last.res.ok
+
 \* lowered fields: a signature is released iff the coalition's shares happen to
 \* interpolate to the secret; then, and only then, it verifies under the group key
 InvNoForgery ==
@@ -151,5 +178,6 @@ InvNoForgery ==
         (last.res.ok /\ last.res.key = CoalitionValue /\ (last.res.key = sc.key <=> Coincidence))
 
 Emit == (EMIT /\ pc[1] = "done") =>
-   PrintT(ToJson(Script("C03") @@ [probe |-> "subthreshold", gen_accept |-> FALSE, accepted |-> Coincidence]))
+   PrintT(ToJson(Script("C03") @@ [probe |-> "subthreshold", gen_accept |-> FALSE,
+                                     accepted |-> ("K" \in DOMAIN sc /\ Coincidence)]))
 =============================================================================
